@@ -158,7 +158,7 @@ def run(tier):
                 continue
             nontrivial = False
             ok = True
-            adopted_dumps = []
+            adopted_dumps = {}
             for k, (name, data, o) in enumerate(steps):
                 fr = recs.get('%s.f%d' % (sid, k))
                 if fr is None or not fr.complete or fr.crash or fr.hang:
@@ -179,7 +179,8 @@ def run(tier):
                             redumps.append(cur)
                         else:
                             cur.append(e)
-                    for orig, now in zip(adopted_dumps, redumps):
+                    for ai, now in enumerate(redumps):
+                        orig = adopted_dumps.get(ai) if isinstance(adopted_dumps, dict) else None
                         if not orig:
                             # adopted after a parse that ended with a fatal error: the driver does not dump the partial
                             # document at that point, so there is nothing to compare the later state with
@@ -192,8 +193,9 @@ def run(tier):
                             ok = False
                 ck.evaluations += 1
                 a, b = step_sig(st), step_sig(fst)
-                if o.get('adopt') and st.status == 'ok':
-                    adopted_dumps.append([e for e in st.events])
+                if getattr(st, 'adopt_index', None) is not None:
+                    # keyed by the driver's own index (side line ADOPT): an adoption after a failed parse has no dump to compare with
+                    adopted_dumps[st.adopt_index] = [e for e in st.events] if st.status == 'ok' and not st.fatal() else []
                 if k > 0 and (st.status != 'ok' or st.errs or 'throw_at' in o or 'abandon_at' in o or any(sts[j].status != 'ok' or sts[j].errs for j in range(k))):
                     nontrivial = True
                 if a != b:
